@@ -45,13 +45,24 @@ STRENGTHENED = {
  "C17-m6": "round 3; missed by C17 at first (non-overlapping lexicon only; C01 and C02 report it); caught by C17 after the sub-check random-L1-overlapping (GLR without lexical disambiguation on overlapping terminals in prefix mode) was added",
  "C19-m5": "round 3; missed at first (a quote of the other kind was never written escaped); caught after 'escape both quote kinds' became a generated way of writing a literal",
  "C11-m6": "round 3; missed at first: out-of-order GLR spans with several recovering heads are exactly known finding D18's class, and random grammars hardly ever keep two heads alive at an error; caught after the deterministic d18-pinned-corpus (grammars with an R/R choice resolved one or two tokens later, sentences with one or two inserted tokens; on the unchanged tree D18 does not show on it, so all 7694 inputs are strict)",
+ "C09-m8": "round 4; missed at first (no terminal action ever returned None); caught after terminal actions returning None (parglare.actions.pass_none style) were generated",
+ "C12-m8": "round 4; missed at first (pglr compile was rarely followed by a parser with exactly the compiled options, and no grammar of the histories had a shift against an EMPTY reduction); caught after a fourth leaf grammar with that conflict and the composite operation 'compile, then build with the same options' were added",
+ "C14-m7": "round 4; missed at first (only the default ws); caught after the ws parameter became a generated value, including sets whose characters mean something inside a regex character class, with the equivalent LAYOUT rule",
+ "C14-m8": "round 4; missed by C14 at first (C14 used no dynamic filter; C18 reports it); caught by C14 after the ws-based and the LAYOUT-based parser were given a logging accept-all filter whose call logs must be equal",
+ "C15-m7": "round 4; missed at first (no action used context.extra, and the leak is process wide so that a fresh parser in the same process sees it too); caught after the start rule's action counts in context.extra and the oracle passes the documented default extra={} explicitly",
+ "C16-m7": "round 4; not a determinism defect (the wrong table is the same in every process): invisible to C16; reported by C05 (table for the other start production built first) and C14 (SLR tables with a LAYOUT rule)",
+ "C16-m8": "round 4; missed by C16 at first (C12's round trip reports it); caught after every grammar of a batch went through a file, so that a second construction loads the cached table, and the forests of that second construction were compared too",
+ "C18-m7": "round 4; missed at first (no grammar with a LAYOUT rule); caught after an optional ws-equivalent LAYOUT rule was added to the grammars (the call-log clause 'initialised once per parse' was there)",
+ "C18-m8": "round 4; missed at first; caught after the clause 'a non-empty reduction the filter accepted is part of the LR result' was added to span-keyed-filters (partially marked grammars were there)",
+ "C20-m7": "round 4; missed at first (no inline string literals in multi-file grammars); caught after inline literals were generated, with texts that are names of terminals declared in other files",
+ "C20-m8": "round 4; missed at first (no explicit EMPTY alternative in imported files); caught after EMPTY alternatives were generated",
  "C19-m2": "ported by hand onto the repaired keyword code (fix F13): KEYWORD regex run over the lower-cased text but compared with the original text",
 }
-ALSO = {"C17-m6": ["C01", "C02"], "C03-m5": ["C01"], "C02-m5": ["C01"], "C02-m6": ["C05"], "C01-m5": ["C02"], "C05-m6": ["C04"], "C14-m5": ["C05"], "C04-m3": ["C05"], "C04-m4": ["C12"], "C16-m3": ["C12"], "C04-m5": ["C05"], "C04-m6": ["C05"], "C20-m6": ["C12"],
+ALSO = {"C16-m7": ["C05", "C14"], "C16-m8": ["C12"], "C14-m8": ["C18"], "C17-m6": ["C01", "C02"], "C03-m5": ["C01"], "C02-m5": ["C01"], "C02-m6": ["C05"], "C01-m5": ["C02"], "C05-m6": ["C04"], "C14-m5": ["C05"], "C04-m3": ["C05"], "C04-m4": ["C12"], "C16-m3": ["C12"], "C04-m5": ["C05"], "C04-m6": ["C05"], "C20-m6": ["C12"],
         "C12-m5": ["C16"], "C16-m6": ["C12"], "C01-m1": ["C02"], "C02-m1": ["C01"], "C01-m2": ["C02", "C04", "C05"], "C02-m2": ["C01"], "C04-m1": ["C05"], "C04-m2": ["C05"], "C13-m2": ["C09"],
         "C16-m2": ["C12"]}
 NOT = {"C16-m2": ["C16"], "C04-m4": ["C04", "C05"], "C17-m3": ["C02", "C03"], "C17-m4": ["C08"],
-       "C20-m4": ["C19"], "C20-m6": ["C20"], "C16-m5": ["C17"], "C01-m6": ["C05"], "C19-m6": ["C07"], "C14-m6": ["C08"], "C09-m5": ["C15"]}
+       "C20-m4": ["C19"], "C20-m6": ["C20"], "C16-m5": ["C17"], "C01-m6": ["C05"], "C19-m6": ["C07"], "C14-m6": ["C08"], "C09-m5": ["C15"], "C16-m7": ["C16"]}
 for d in sorted(glob.glob('/verif/seeded/C*-m*')):
     mid = os.path.basename(d)
     prop = mid.split('-')[0]
@@ -67,7 +78,7 @@ for d in sorted(glob.glob('/verif/seeded/C*-m*')):
         "checks_run": "tools_mut.sh: git -C /repo apply patch.diff; python -m pv.run <property> --tier quick; undo",
         "detected_by_quick_checks": det,
         "not_detected_by": NOT.get(mid, []),
-        "history": STRENGTHENED.get(mid, ("round 3; " if int(mid.split("-m")[1]) >= 5 else "round 2; " if int(mid.split("-m")[1]) >= 3 else "") + "caught by the property's quick check as it stood"),
+        "history": STRENGTHENED.get(mid, ("round 4; " if int(mid.split("-m")[1]) >= 7 else "round 3; " if int(mid.split("-m")[1]) >= 5 else "round 2; " if int(mid.split("-m")[1]) >= 3 else "") + "caught by the property's quick check as it stood"),
     }
     json.dump(meta, open(os.path.join(d, 'meta.json'), 'w'), indent=1)
 print("ok")
